@@ -342,7 +342,7 @@ def run_leg(pid, tier, seed):
     runs, events, hangs = sync.run_crash(scripts, pid + "sl")
     C.panic_violations(pid, runs, {sc["run"]: sc for sc in scripts}, violations)
     for h in hangs:
-        p = C.write_replay(pid, "seglog-hang-%d" % len(violations), dict(kind="hang", what=h))
+        p = C.write_replay(pid, "seglog-hang-%d" % len(violations), C.hang_payload(h, {sc["run"]: sc for sc in scripts}))
         violations.append(dict(prop=pid, replay=p, what="call did not return: " + h[:200]))
     traces = build_traces(events, scripts, max_streams=plan.get("streams"))
     nrec = sum(len(t) for t in traces.values())
